@@ -37,7 +37,7 @@ class EVQESpeciation(BaseEvolutionaryOperator[EVQEPopulation]):
             species_representatives = []
             species_members: dict[EVQEIndividual, list[int]] = {}
         else:
-            species_representatives = population.species_representatives
+            species_representatives = list(population.species_representatives)
             species_members = {representative: [] for representative in species_representatives}
         species_membership: dict[int, EVQEIndividual] = {}
 
